@@ -4,10 +4,18 @@ use crate::ctx::Ctx;
 use crate::json::Json;
 
 pub mod c01;
+pub mod c02;
+pub mod c11;
+pub mod c12;
+pub mod c13;
 
 pub fn run(ctx: &mut Ctx) -> bool {
     match ctx.prop.as_str() {
         "C01" => c01::run(ctx),
+        "C02" => c02::run(ctx),
+        "C11" => c11::run(ctx),
+        "C12" => c12::run(ctx),
+        "C13" => c13::run(ctx),
         _ => return false,
     }
     true
@@ -21,4 +29,194 @@ pub fn case_src_in(src: &str, stdin: &[u8]) -> Json {
     Json::obj()
         .with("src", Json::s(src))
         .with("stdin", Json::s(String::from_utf8_lossy(stdin).to_string()))
+}
+
+// --------------------------------------------------------------------------- shared oracle
+
+use crate::mast::Program;
+use crate::mon::{ExecOpts, ExecOutcome};
+use crate::refi::{self, RefOutcome, RefRun};
+use crate::render::{render, Spelling};
+use crate::rng::Rng;
+
+#[derive(Debug)]
+pub enum Verdict {
+    /// compared and equal
+    Agree,
+    /// a violation was recorded
+    Violation,
+    DontCare,
+    Discarded,
+    /// the program could not be rendered / did not parse (recorded separately)
+    NotRun,
+}
+
+pub struct Compared {
+    pub verdict: Verdict,
+    pub text: String,
+    pub model: Option<RefRun>,
+    pub rrss_out: Vec<u8>,
+    pub rrss_err: Option<String>,
+}
+
+fn show(bytes: &[u8]) -> String {
+    let s = String::from_utf8_lossy(bytes);
+    if s.len() > 1500 {
+        format!("{}…", s.chars().take(1500).collect::<String>())
+    } else {
+        s.to_string()
+    }
+}
+
+/// Render `tree`, parse it with rrss, run the reference model and rrss on `stdin`, compare
+/// stdout and the Ok/Err class (history + model oracle). `what` prefixes violation signatures.
+pub fn exec_compare(
+    ctx: &mut Ctx,
+    what: &str,
+    tree: &Program,
+    stdin: &[u8],
+    sp: &Spelling,
+    rng: &mut Rng,
+) -> Compared {
+    let rendered = match render(tree, sp, rng) {
+        Ok(r) => r,
+        Err(e) => {
+            ctx.count("generator_inexpressible");
+            ctx.seen("generator_inexpressible_reasons", &e.0);
+            return Compared { verdict: Verdict::NotRun, text: String::new(), model: None, rrss_out: vec![], rrss_err: None };
+        }
+    };
+    let text = rendered.text;
+    exec_compare_text(ctx, what, tree, &text, stdin)
+}
+
+pub fn exec_compare_text(ctx: &mut Ctx, what: &str, tree: &Program, text: &str, stdin: &[u8]) -> Compared {
+    let mk = |verdict, model, out: Vec<u8>, err| Compared { verdict, text: text.to_string(), model, rrss_out: out, rrss_err: err };
+    let case = |extra: Json| {
+        Json::obj()
+            .with("src", Json::s(text))
+            .with("stdin", Json::s(String::from_utf8_lossy(stdin).to_string()))
+            .with("observed", extra)
+    };
+    // reference first: programs outside the budget are discarded before rrss runs
+    let model = refi::run(tree, stdin, &refi::Budget::default());
+    if let RefOutcome::OverBudget(w) = &model.outcome {
+        ctx.count("discarded_over_budget");
+        ctx.seen("discard_reasons", w);
+        return mk(Verdict::Discarded, Some(model), vec![], None);
+    }
+    let parsed = match crate::mon::parse_guarded(text, 1000, true) {
+        Err(p) => {
+            ctx.sites.absorb();
+            ctx.panic_outcome(&format!("{}:parse", what), &p, case(Json::Null));
+            return mk(Verdict::Violation, Some(model), vec![], None);
+        }
+        Ok(r) => r,
+    };
+    ctx.sites.absorb();
+    let prog = match parsed.result {
+        Ok(p) => p,
+        Err(e) => {
+            // a generated valid program that is rejected is C02's violation; here the case is unusable
+            ctx.count("valid_program_rejected_by_parser");
+            ctx.violation(
+                &format!("{}:valid_program_rejected:{}", what, e.code),
+                &format!("generated program does not parse: {}", e.text),
+                case(Json::s(&e.text)),
+            );
+            return mk(Verdict::Violation, Some(model), vec![], None);
+        }
+    };
+    if crate::conv::program(&prog) != *tree {
+        ctx.count("parsed_tree_differs_from_generated");
+        ctx.violation(
+            &format!("{}:parsed_tree_differs", what),
+            "the program parsed to a different tree than the one generated (see C02)",
+            case(Json::s(format!("{:?}", crate::conv::program(&prog)).chars().take(1500).collect::<String>())),
+        );
+        return mk(Verdict::Violation, Some(model), vec![], None);
+    }
+    let opts = ExecOpts {
+        fuel: model.steps.saturating_mul(8) + 1000,
+        log_events: false,
+        log_dict: false,
+        trap: true,
+    };
+    ctx.eval();
+    let out = crate::mon::exec_guarded(&prog, stdin, &opts);
+    ctx.sites.absorb();
+    match out {
+        ExecOutcome::Panicked(p, partial) => {
+            let c = case(Json::s(show(&partial)));
+            ctx.panic_outcome(&format!("{}:exec", what), &p, c);
+            mk(Verdict::Violation, Some(model), partial, None)
+        }
+        ExecOutcome::Done(run) => {
+            ctx.max("max_statements_executed", run.stmts);
+            if let RefOutcome::DontCare(w) = &model.outcome {
+                ctx.count("dont_care_runs");
+                ctx.seen("dont_care_reasons", w);
+                return mk(Verdict::DontCare, Some(model), run.stdout, run.result.err());
+            }
+            let want_err = matches!(model.outcome, RefOutcome::Error(_));
+            let got_err = run.result.is_err();
+            if let Some(k) = &run.err_kind {
+                ctx.seen("rrss_error_kinds", k);
+            }
+            let observed = Json::obj()
+                .with("expected_stdout", Json::s(show(&model.out)))
+                .with("rrss_stdout", Json::s(show(&run.stdout)))
+                .with("expected_outcome", Json::s(format!("{:?}", model.outcome)))
+                .with("rrss_result", Json::s(format!("{:?}", run.result)));
+            if run.stdout != model.out {
+                // locate the first differing line for the signature class
+                let exp = String::from_utf8_lossy(&model.out).to_string();
+                let got = String::from_utf8_lossy(&run.stdout).to_string();
+                let k = exp.lines().zip(got.lines()).position(|(a, b)| a != b);
+                let class = match k {
+                    Some(_) => "line_differs",
+                    None => {
+                        if got.lines().count() < exp.lines().count() {
+                            "output_missing"
+                        } else {
+                            "extra_output"
+                        }
+                    }
+                };
+                ctx.violation(
+                    &format!("{}:stdout:{}", what, class),
+                    &format!(
+                        "first difference at line {:?}\nexpected: {:?}\n     got: {:?}\nmodel outcome {:?}, rrss {:?}",
+                        k.map(|k| k + 1),
+                        k.and_then(|k| exp.lines().nth(k)).unwrap_or("<end>"),
+                        k.and_then(|k| got.lines().nth(k)).unwrap_or("<end>"),
+                        model.outcome,
+                        run.result
+                    ),
+                    case(observed),
+                );
+                return mk(Verdict::Violation, Some(model), run.stdout, run.result.err());
+            }
+            if want_err != got_err {
+                let sig = if want_err {
+                    format!("{}:missing_runtime_error:{}", what, match &model.outcome { RefOutcome::Error(k) => k.clone(), _ => String::new() })
+                } else {
+                    format!("{}:unexpected_runtime_error:{}", what, run.err_kind.clone().unwrap_or_default())
+                };
+                ctx.violation(
+                    &sig,
+                    &format!("model outcome {:?}, rrss result {:?}", model.outcome, run.result),
+                    case(observed),
+                );
+                return mk(Verdict::Violation, Some(model), run.stdout, run.result.err());
+            }
+            if want_err {
+                ctx.count("error_outcomes_agreed");
+            } else {
+                ctx.count("ok_outcomes_agreed");
+            }
+            ctx.add("output_lines_compared", model.says);
+            mk(Verdict::Agree, Some(model), run.stdout, run.result.err())
+        }
+    }
 }
